@@ -201,7 +201,7 @@ impl Rk {
     fn rate(self) -> usize { if self == Rk::Jive { 4 } else { 8 } }
 }
 
-pub struct Layout { cap: Vec<u64>, ops: Vec<(bool, Vec<u64>)> }
+pub struct Layout { pub cap: Vec<u64>, pub ops: Vec<(bool, Vec<u64>)> }
 
 /// 7-byte chunks as little-endian integers, a `1` byte appended to the last chunk
 pub fn bytes_to_elems(bs: &[u8]) -> Vec<u64> {
